@@ -19,6 +19,10 @@ if REPO not in sys.path:
 os.environ.setdefault('NBDIME_VERIF', '1')
 import warnings
 warnings.filterwarnings('ignore')
+import logging
+logging.getLogger('nbdime').setLevel(logging.CRITICAL)
+logging.getLogger('nbdime').addHandler(logging.NullHandler())
+logging.getLogger('nbdime').propagate = False
 
 
 class Infra(Exception):
